@@ -88,7 +88,7 @@ static bool gen_c20(uint64_t seed, const std::string &tier, uint64_t i, Plan &p)
       Json sv = Json::obj(); sv.set("greeting", hr(220)).set("helo", hr(250)).set("mail", hr(250)).set("data", hr(354)).set("dot", hr(250)); Json rr = Json::arr(); rr.push(hr(250)); rr.push(hr(250)); sv.set("rcpt", rr); p.knobs.set("server", sv);
       Json rc = Json::arr(); rc.push(std::string((size_t)r.pick(std::vector<int>{1, 500, 5000}), 'u') + "@r.example"); rc.push("v@" + std::string((size_t)r.pick(std::vector<int>{1, 300, 4000}), 'd')); p.knobs.set("rcpts", rc).set("sender", rnd_bytes(r, (size_t)r.range(0, 50)) + "@x");
       { std::string sdr = p.knobs.gets("sender"); for (auto &c : sdr) if (!c) c = '0'; p.knobs.set("sender", sdr); }
-      if (surface == 5) { Json zone = Json::obj(); Json fail = Json::obj(); std::string kind = r.pick(std::vector<std::string>{"loop", "cut", "counts", "big", "rdlen", "trunc", "junk", "edge", "edge"}); fail.set("r.example", "garbled:" + kind); zone.set("fail", fail); p.knobs.set("zone", zone); p.label = "qmail-remote garbled dns (" + kind + ")"; }
+      if (surface == 5) { Json zone = Json::obj(); Json fail = Json::obj(); std::string kind = r.pick(std::vector<std::string>{"grow", "grow", "shrink", "loop", "cut", "counts", "big", "rdlen", "trunc", "junk", "edge", "edge"}); fail.set("r.example", "garbled:" + kind); zone.set("fail", fail); p.knobs.set("zone", zone); p.label = "qmail-remote garbled dns (" + kind + ")"; }
       else { p.knobs.set("smtproutes", routes); p.label = "qmail-remote hostile server"; }
       alloc_fault(r, p, "qmail-remote"); break; }
     case 6: {   // helpers: clean requests, spawner commands, corrupt cdb
